@@ -1030,3 +1030,15 @@ Definition f64_parts (b : N) : N * Z :=
   let ef := (b / 2 ^ 52) mod 2048 in
   let fr := b mod 2 ^ 52 in
   if ef =? 0 then (fr, (-1074)%Z) else (2 ^ 52 + fr, (Z.of_N ef - 1075)%Z).
+
+(* m1 * 2^e1 = m2 * 2^e2, without fractions *)
+Definition same_value (m1 : N) (e1 : Z) (m2 : N) (e2 : Z) : Prop :=
+  ((e1 <= e2)%Z /\ m1 = m2 * 2 ^ Z.to_N (e2 - e1)) \/ ((e2 <= e1)%Z /\ m2 = m1 * 2 ^ Z.to_N (e1 - e2)).
+
+(* sign, mantissa and binary exponent denoted by a binary float event *)
+Definition result_bin (r : lit_result) : option (bool * N * Z) :=
+  match r with
+  | RFloat b => let '(M, E) := f64_parts (b mod 2 ^ 63) in Some (2 ^ 63 <=? b, M, E)
+  | RBigFloat n m e _ => Some (n, m, e)
+  | _ => None
+  end.
